@@ -154,7 +154,8 @@ theorem spec_sigs_eq {e : Env} {pool : List Tx} {law : QueueLaw ops} {s : St Q} 
   rfl
 
 theorem blockValid_of_inv {e : Env} {pool : List Tx} {law : QueueLaw ops} {s : St Q}
-    (h : Inv e pool law s) (hno : FeesNotOverstated e pool) (hmax : e.maxWeight ≤ MAX_BLOCK_WEIGHT) :
+    (h : Inv e pool law s) (he : EnvOk e) (hno : FeesNotOverstated e pool)
+    (hseq : ∀ t ∈ pool, seqLocksOk e t = true) (hmax : e.maxWeight ≤ MAX_BLOCK_WEIGHT) :
     Spec.blockValid e pool (templateOf e s) = true := by
   rcases h.conn with ⟨rf, hfold, _, hnot⟩
   have hconn : connect e pool s.sel = some rf := by
@@ -167,7 +168,7 @@ theorem blockValid_of_inv {e : Env} {pool : List Tx} {law : QueueLaw ops} {s : S
   have hcm : (templateOf e s).commitment = s.witnessIncluded := rfl
   rw [hsel, hconn, hs]
   simp only [Bool.and_eq_true, List.all_eq_true, decide_eq_true_eq, Bool.or_eq_true, Bool.not_eq_true']
-  refine ⟨⟨⟨⟨⟨⟨⟨⟨⟨?_, h.selNodup⟩, ?_⟩, ?_⟩, ?_⟩, ?_⟩, h.sigLim⟩, ?_⟩, ?_⟩, ?_⟩
+  refine ⟨⟨⟨⟨⟨⟨⟨⟨⟨⟨⟨⟨?_, h.selNodup⟩, ?_⟩, ?_⟩, ?_⟩, ?_⟩, h.sigLim⟩, ?_⟩, ?_⟩, ?_⟩, ?_⟩, ?_⟩, ?_⟩
   · exact h.selValid
   · intro t ht; exact (h.txsOk t ht).1
   · intro t ht
@@ -192,6 +193,13 @@ theorem blockValid_of_inv {e : Env} {pool : List Tx} {law : QueueLaw ops} {s : S
       cases hw' : t.hasWitness with
       | false => rfl
       | true => exact absurd ((h.txsOk t ht).2.2.2 hw').2 hwi
+  · intro t ht
+    rcases mem_txsOf ht with ⟨j, _, hj⟩
+    exact hseq t (mem_of_getElem? hj)
+  · unfold headerTime; split <;> omega
+  · have := he.clock
+    unfold MAX_TIME_OFFSET at *
+    unfold headerTime; split <;> omega
 
 theorem depsBefore_mem (pool : List Tx) : ∀ (l acc : List Nat), depsBefore pool l acc = true →
     ∀ j ∈ l, ∀ t, pool[j]? = some t → ∀ i ∈ t.ins, ∀ k k', i.op = OutPoint.p k k' → i.chain = none →
